@@ -8,7 +8,7 @@
    distance md (seconds).  [readout r] is what getConsumerTopicList returns for the partition: n entries starting at
    the ring pointer.  [window b cs] = b unfilled entries followed by the commits cs; [asc cs] = log positions
    strictly increasing.  Every theorem holds for all n (n = 0 included unless stated), all md, all lists. *)
-From Coq Require Import ZArith List Sorted.
+From Coq Require Import ZArith List Sorted Lia.
 From Burrow Require Import Int64 Eval Ring RingProofs.
 Import ListNotations.
 Open Scope Z_scope.
